@@ -169,6 +169,38 @@ func checkCase(c *Case) error {
 				return err
 			}
 		}
+		// The same crash seen through a byte source which still holds the
+		// later bytes (a pre-allocated file, a device): the available bytes
+		// are the first L.  The statement's demands apply unchanged, and an
+		// object which by the scan's own account ends beyond the available
+		// bytes is incomplete, so it must be reported as broken.  (Equality
+		// of the two scans is NOT demanded: the unchanged library verifies a
+		// declared /Length against bytes beyond the stated size, which can
+		// turn an object that merely looks complete in the prefix into a
+		// broken one.)
+		if L%4 == 1 || L+64 >= len(data) {
+			label2 := fmt.Sprintf("%s, read from a source which holds all %d bytes", label, len(data))
+			fi2, err2 := pdf.SequentialScan(bytes.NewReader(data), int64(L))
+			if err2 != nil {
+				return fmt.Errorf("%s: SequentialScan fails outright: %v", label2, err2)
+			}
+			for _, sec := range fi2.Sections {
+				for _, o := range sec.Objects {
+					if !o.Broken && o.ObjEnd > int64(L) {
+						return fmt.Errorf("%s: object %s (bytes %d..%d) extends beyond the available bytes but is not reported as broken", label2, o.Reference, o.ObjStart, o.ObjEnd)
+					}
+				}
+			}
+			index2 := scanIndex(fi2)
+			for _, e := range exp {
+				if e.end > L || !lengthAvailable(e, exp, L) {
+					continue
+				}
+				if err := checkListed(fi2, index2, e, label2); err != nil {
+					return err
+				}
+			}
+		}
 		return nil
 	}
 	const workers = 4
